@@ -1,1 +1,160 @@
-// harnesses: payload
+// harnesses over /repo/src/payload.rs  (C19, C13-H1)
+
+/// independent reference dissector for Ethernet frames: (src, dst, addr_len) or None
+fn ref_frame(d: &[u8]) -> Option<([u8; 8], [u8; 8], u8, bool)> {
+    if d.len() < 14 {
+        return None;
+    }
+    let mut src = [0u8; 8];
+    let mut dst = [0u8; 8];
+    if d[12] == 0x81 && d[13] == 0x00 {
+        if d.len() < 16 {
+            return None;
+        }
+        let hi = d[14] & 0x0f;
+        let lo = d[15];
+        src[0] = hi;
+        src[1] = lo;
+        dst[0] = hi;
+        dst[1] = lo;
+        let mut i = 0;
+        while i < 6 {
+            src[2 + i] = d[6 + i];
+            dst[2 + i] = d[i];
+            i += 1;
+        }
+        Some((src, dst, 8, hi == 0 && lo == 0))
+    } else {
+        let mut i = 0;
+        while i < 6 {
+            src[i] = d[6 + i];
+            dst[i] = d[i];
+            i += 1;
+        }
+        Some((src, dst, 6, false))
+    }
+}
+
+fn same_prefix(a: &[u8; 16], b: &[u8; 8], n: usize) -> bool {
+    let mut i = 0;
+    while i < n {
+        if a[i] != b[i] {
+            return false;
+        }
+        i += 1;
+    }
+    true
+}
+
+/// C19-H1: Frame::parse is exact and total on every byte string of length <= 24 (it reads at most 16 bytes).
+/// For VLAN id 0 both the tagged (8-byte, id 0) and the untagged (6-byte) form are accepted here: the folding
+/// itself is the subject of C13.
+#[cfg_attr(kani, kani::proof, kani::unwind(10))]
+pub fn c19_frame_exact() {
+    let data: [u8; 24] = kani::any();
+    let len: usize = kani::any();
+    kani::assume(len <= 24);
+    let res = Frame::parse(&data[..len]);
+    match ref_frame(&data[..len]) {
+        None => assert!(res.is_err()),
+        Some((rs, rd, rl, vlan0)) => {
+            assert!(res.is_ok());
+            let (s, d) = res.unwrap();
+            if vlan0 && s.len == 6 {
+                // folded form: plain MACs
+                assert!(d.len == 6);
+                let mut i = 0;
+                while i < 6 {
+                    assert!(s.data[i] == rs[2 + i] && d.data[i] == rd[2 + i]);
+                    i += 1;
+                }
+            } else {
+                assert!(s.len == rl && d.len == rl);
+                assert!(same_prefix(&s.data, &rs, rl as usize));
+                assert!(same_prefix(&d.data, &rd, rl as usize));
+            }
+        }
+    }
+    vcover!(len >= 16 && data[12] == 0x81 && data[13] == 0, "tagged");
+    vcover!(len == 15 && data[12] == 0x81 && data[13] == 0, "tagged_truncated");
+    vcover!(len == 14 && data[12] != 0x81, "minimal_untagged");
+    witness!();
+}
+
+/// C13-H1: VLAN normalisation. Behind ethertype 0x8100 the address is the 12-bit VLAN id + MAC; the PCP/DEI nibble
+/// never influences it; priority-tagged frames (VLAN id 0) count as untagged: plain 6-byte MAC addresses, equal to
+/// what the same frame without the tag yields; nested tags are ignored.
+#[cfg_attr(kani, kani::proof, kani::unwind(10))]
+pub fn c13_vlan_normalisation() {
+    let data: [u8; 20] = kani::any();
+    let nibble: u8 = kani::any();
+    kani::assume(data[12] == 0x81 && data[13] == 0x00);
+    let (s, d) = Frame::parse(&data).unwrap();
+    let vid = (((data[14] & 0x0f) as u16) << 8) | data[15] as u16;
+    // the same frame with another PCP/DEI nibble
+    let mut other = data;
+    other[14] = (data[14] & 0x0f) | (nibble << 4);
+    let (s2, d2) = Frame::parse(&other).unwrap();
+    assert!(s == s2 && d == d2);
+    // the same frame without the tag
+    let mut untagged = [0u8; 16];
+    untagged[..12].copy_from_slice(&data[..12]);
+    untagged[12] = 0x08;
+    untagged[13] = 0x00;
+    let (us, ud) = Frame::parse(&untagged).unwrap();
+    assert!(us.len == 6 && ud.len == 6);
+    if vid == 0 {
+        assert!(s.len == 6 && d.len == 6);
+        assert!(s == us && d == ud);
+    } else {
+        assert!(s.len == 8 && d.len == 8);
+        assert!(s.data[0] == (vid >> 8) as u8 && s.data[1] == (vid & 0xff) as u8);
+        assert!(d.data[0] == (vid >> 8) as u8 && d.data[1] == (vid & 0xff) as u8);
+        let mut i = 0;
+        while i < 6 {
+            assert!(s.data[2 + i] == data[6 + i] && d.data[2 + i] == data[i]);
+            i += 1;
+        }
+        assert!(s != us);
+    }
+    vcover!(vid == 0 && (data[14] >> 4) != 0, "priority_tagged");
+    vcover!(vid == 0xfff, "vid_max");
+    vcover!(data[16] == 0x81 && data[17] == 0x00, "nested_tag");
+    witness!();
+}
+
+/// C19-H2: Packet::parse is exact and total on every byte string of length <= 64 (it reads at most 40 bytes)
+#[cfg_attr(kani, kani::proof, kani::unwind(18))]
+pub fn c19_packet_exact() {
+    let data: [u8; 64] = kani::any();
+    let len: usize = kani::any();
+    kani::assume(len <= 64);
+    let res = Packet::parse(&data[..len]);
+    let v = if len > 0 { data[0] >> 4 } else { 0 };
+    if len == 0 || (v != 4 && v != 6) || (v == 4 && len < 20) || (v == 6 && len < 40) {
+        assert!(res.is_err());
+    } else {
+        assert!(res.is_ok());
+        let (s, d) = res.unwrap();
+        if v == 4 {
+            assert!(s.len == 4 && d.len == 4);
+            let mut i = 0;
+            while i < 4 {
+                assert!(s.data[i] == data[12 + i] && d.data[i] == data[16 + i]);
+                i += 1;
+            }
+        } else {
+            assert!(s.len == 16 && d.len == 16);
+            let mut i = 0;
+            while i < 16 {
+                assert!(s.data[i] == data[8 + i] && d.data[i] == data[24 + i]);
+                i += 1;
+            }
+        }
+    }
+    vcover!(len == 20 && v == 4, "ipv4_minimal");
+    vcover!(len == 19 && v == 4, "ipv4_truncated");
+    vcover!(len == 40 && v == 6, "ipv6_minimal");
+    vcover!(len == 39 && v == 6, "ipv6_truncated");
+    witness!();
+}
